@@ -203,9 +203,16 @@ Definition truncate_value (E : menv) (v : fvalue) : fvalue :=
   {| v_text := truncate (max_field_chars E) (v_text v); v_dt := v_dt v; v_num := v_num v;
      v_state := v_state v; v_district := v_district v; v_ward := v_ward v |}.
 
+(* a value truncated to nothing is no value *)
+Definition nonempty_value (v : option fvalue) : option fvalue :=
+  match v with
+  | Some x => match v_text x with [] => None | _ => Some x end
+  | None => None
+  end.
+
 Definition apply_field (E : menv) (f : N) (raw : text) (c : contact) : contact * list event * bool :=
   let old := fget f (c_fields c) in
-  let new := option_map (truncate_value E) (parse_value E (c_fields c) f raw) in
+  let new := nonempty_value (option_map (truncate_value E) (parse_value E (c_fields c) f raw)) in
   if negb (ofvalue_eqb new old)
   then (with_fields c (fset f new (c_fields c)), [EFieldChanged f new], true)
   else (c, [], false).
